@@ -69,6 +69,16 @@ pub open spec fn errno_abs(e: Error) -> u64 {
     }
 }
 pub uninterp spec fn stored_error(id: i32, e: Error) -> bool;
+/// R16: `ERROR_MAP.lock().unwrap()`.  The map is passed in as `err_map`; `sections` counts the acquisitions made by
+/// this call.  The first critical section sees the map as it was on entry; between two critical sections other
+/// threads run, so from the second acquisition on the content is arbitrary.  (Poisoning is not modelled: no code
+/// under contract panics while holding the lock.)
+#[verifier::external_body]
+pub fn lock_section_begin(m: &mut HashMap<CReturn, Error>, sections: &mut Ghost<nat>)
+    ensures
+        final(sections)@ == old(sections)@ + 1,
+        old(sections)@ == 0 ==> final(m)@ == old(m)@,
+{ unimplemented!() }
 pub assume_specification[i32::unsigned_abs](x: i32) -> (r: u32)
     ensures r as int == (if x < 0 { -(x as int) } else { x as int });
 pub mod rand {
